@@ -27,11 +27,13 @@ pub struct WatchOpts {
     pub prime_pct: usize,
     pub fail_pct: usize,
     pub service_bias: bool,
+    /// only the io generator (X.output chains, several projects)
+    pub io_only: bool,
 }
 
 impl Default for WatchOpts {
     fn default() -> Self {
-        WatchOpts { max_bursts: 5, inside_build_pct: 45, prime_pct: 60, fail_pct: 0, service_bias: false }
+        WatchOpts { max_bursts: 5, inside_build_pct: 45, prime_pct: 60, fail_pct: 0, service_bias: false, io_only: false }
     }
 }
 
@@ -99,7 +101,7 @@ fn gen_watch_op(rng: &mut Rng, sc: &Scenario, targets: &[Tid], n: u64) -> Option
 /// A watch session: optional priming one-shot run, then `--watch` with bursts of edits placed
 /// while idle, inside builds, or back to back; finally the signal at idle.
 pub fn gen_watch(rng: &mut Rng, o: &WatchOpts) -> Scenario {
-    let mut sc = if rng.chance(55) {
+    let mut sc = if !o.io_only && rng.chance(55) {
         let mut s = gen::gen_graph(rng, &GraphOpts { max_n: 6, ..Default::default() });
         // every build gets a source so that changes can reach it
         let mut extra = vec![];
@@ -113,7 +115,7 @@ pub fn gen_watch(rng: &mut Rng, o: &WatchOpts) -> Scenario {
         s.files.extend(extra);
         s
     } else {
-        gen::gen_io(rng, &IoOpts { multi_project_pct: 25, max_targets: 5, cmd_pct: 0 })
+        gen::gen_io(rng, &IoOpts { multi_project_pct: if o.io_only { 50 } else { 25 }, max_targets: 5, cmd_pct: 0, cmd_output_pct: 0 })
     };
     if o.service_bias {
         for t in sc.projects[0].targets.iter_mut() {
@@ -317,6 +319,12 @@ fn change_placement(c: &InvCtx, t: &Tid) -> String {
 // ------------------------------------------------------------------ C06 oracle
 
 pub fn oracle_c06(sc: &Scenario, s: &Session) -> Option<Violation> {
+    oracle_c06_filtered(sc, s, |_, _| true)
+}
+
+/// The convergence oracle restricted to the targets `keep` selects (start-up and liveness
+/// clauses always apply).
+pub fn oracle_c06_filtered(sc: &Scenario, s: &Session, keep: fn(&Scenario, &Tid) -> bool) -> Option<Violation> {
     let r = &s.r;
     let c = InvCtx::new(sc, &s.inv, r);
     if let Some(a) = r.abnormal() {
@@ -349,7 +357,7 @@ pub fn oracle_c06(sc: &Scenario, s: &Session) -> Option<Violation> {
             || r.events.iter().filter(|e| e.kind == "proc-spawn-failed" && e.field("id") == Some(c.sim_id(t).as_str())).last().map(|e| r.insts(&c.sim_id(t)).last().map(|p| p.spawn_seq < e.seq).unwrap_or(true)).unwrap_or(false)
     };
     for t in &c.clo {
-        if model::kind_of(sc, t) == Some(Kind::Aggregate) {
+        if model::kind_of(sc, t) == Some(Kind::Aggregate) || !keep(sc, t) {
             continue;
         }
         let blocked_by_dep = model::transitive_effective_deps(sc, t).iter().any(|d| last_failed(d));
